@@ -44,15 +44,67 @@ theorem safeFields_erase : ∀ (kvs : GoFields) (k : Bytes),
     · exact safeFields_erase r k hs.2
     · simp [safeFieldsB, hs.1, safeFields_erase r k hs.2]
 
-/-- outcome of a `validateVarType` call that the totality proof needs -/
-def GoodPair : Res (GoVal × GoVal) → Prop
+/-- a slice that may hold null items is at least as safe -/
+theorem safeItems_mono : ∀ (xs : GoVals) (b : Bool), safeItemsB b xs = true → safeItemsB true xs = true
+  | .nil, _, _ => by simp [safeItemsB]
+  | .cons x r, b, h => by
+    simp only [safeItemsB, Bool.and_eq_true] at h
+    simp [safeItemsB, h.1.2, safeItems_mono r b h.2]
+
+/-- the element type of a result slice is the original one or `interface{}` -/
+theorem storeElemType_cases (t : GoType) (a b : GoVals) : storeElemType t a b = t ∨ storeElemType t a b = .iface := by
+  unfold storeElemType
+  split
+  · exact Or.inl rfl
+  · split
+    · exact Or.inl rfl
+    · exact Or.inr rfl
+
+theorem safeItems_storeElemType {t : GoType} {a b xs : GoVals} (h : safeItemsB (decide (t = .iface)) xs = true) :
+    safeItemsB (decide (storeElemType t a b = .iface)) xs = true := by
+  rcases storeElemType_cases t a b with e | e
+  · rw [e]; exact h
+  · rw [e]; simpa using safeItems_mono xs _ h
+
+mutual
+  theorem jsonLike_safe : (v : GoVal) → jsonLikeB v = true → safeB v = true
+    | .slice e xs, h => by
+      simp only [jsonLikeB, Bool.and_eq_true, decide_eq_true_eq] at h
+      obtain ⟨he, hx⟩ := h
+      subst he
+      simpa [safeB] using jsonLikeItems_safe xs hx
+    | .map e kvs, h => by
+      simp only [jsonLikeB, Bool.and_eq_true, decide_eq_true_eq] at h
+      simp [safeB, h.1, jsonLikeFields_safe kvs h.2]
+    | .nil, _ => rfl
+    | .bool _, _ => rfl
+    | .int _ _, _ => rfl
+    | .uint _ _, _ => rfl
+    | .float _ _, _ => rfl
+    | .jsonNumber _, _ => rfl
+    | .str _, _ => rfl
+  theorem jsonLikeItems_safe : (xs : GoVals) → jsonLikeItemsB xs = true → safeItemsB true xs = true
+    | .nil, _ => rfl
+    | .cons v r, h => by
+      simp only [jsonLikeItemsB, Bool.and_eq_true] at h
+      simp [safeItemsB, jsonLike_safe v h.1, jsonLikeItems_safe r h.2]
+  theorem jsonLikeFields_safe : (kvs : GoFields) → jsonLikeFieldsB kvs = true → safeFieldsB kvs = true
+    | .nil, _ => rfl
+    | .cons _ v r, h => by
+      simp only [jsonLikeFieldsB, Bool.and_eq_true] at h
+      simp [safeFieldsB, jsonLike_safe v h.1, jsonLikeFields_safe r h.2]
+end
+
+/-- outcome of a `validateVarType` call on `val` that the totality proof needs: no panic; the
+    results are safe; a non-null value is not turned into the zero Value -/
+def GoodPair (val : GoVal) : Res (GoVal × GoVal) → Prop
   | .panic _ => False
-  | .ok (ret, upd) => safeB ret = true ∧ safeB upd = true ∧ ret ≠ .nil ∧ upd ≠ .nil
+  | .ok (ret, upd) => safeB ret = true ∧ safeB upd = true ∧ (val ≠ .nil → ret ≠ .nil ∧ upd ≠ .nil)
   | _ => True
 
-def GoodItems : Res GoVals → Prop
+def GoodItems (nilOK : Bool) : Res GoVals → Prop
   | .panic _ => False
-  | .ok xs => safeItemsB xs = true
+  | .ok xs => safeItemsB nilOK xs = true
   | _ => True
 
 def GoodFields : Res GoFields → Prop
@@ -60,39 +112,61 @@ def GoodFields : Res GoFields → Prop
   | .ok kvs => safeFieldsB kvs = true
   | _ => True
 
-theorem storeElem_good {ret upd : GoVal} (h1 : safeB ret = true) (h2 : safeB upd = true) (h3 : ret ≠ .nil) (h4 : upd ≠ .nil) :
-    safeB (storeElem ret upd) = true ∧ storeElem ret upd ≠ .nil := by
+theorem storeElem_good {ret upd : GoVal} (h1 : safeB ret = true) (h2 : safeB upd = true) :
+    safeB (storeElem ret upd) = true := by
   unfold storeElem; split <;> simp_all
 
+theorem storeElem_ne_nil {ret upd : GoVal} (h3 : ret ≠ .nil) (h4 : upd ≠ .nil) : storeElem ret upd ≠ .nil := by
+  unfold storeElem; split <;> simp_all
+
+/-- the list loop: `f` is only ever called on a null item when the element type is nullable (the
+    loop itself rejects a null item of an `interface{}` slice at a non-null element type, and a
+    typed slice holds no null item) -/
 theorem listLoop_good (f : Path → GoVal → Res (GoVal × GoVal)) (path : Path) (b1 b2 : Bool)
-    (hf : ∀ p x, safeB x = true → x ≠ .nil → GoodPair (f p x)) :
-    ∀ (xs : GoVals) (i : Nat), safeItemsB xs = true → GoodItems (listLoop f path b1 b2 i xs)
+    (hf : ∀ p x, safeB x = true → (x = .nil → b2 = false) → GoodPair x (f p x)) :
+    ∀ (xs : GoVals) (i : Nat), safeItemsB b1 xs = true → GoodItems b1 (listLoop f path b1 b2 i xs)
   | .nil, i, _ => by simp [listLoop, safeItemsB, GoodItems]
   | .cons x rest, i, hs => by
-    simp only [safeItemsB, Bool.and_eq_true, Bool.not_eq_true'] at hs
+    simp only [safeItemsB, Bool.and_eq_true, Bool.or_eq_true, Bool.not_eq_true'] at hs
     obtain ⟨⟨hx1, hx2⟩, hr⟩ := hs
-    have hxne : x ≠ .nil := (GoVal.isNil_false_iff x).mp hx1
-    simp only [listLoop, hx1, Bool.and_false, Bool.false_eq_true, if_false]
-    have hg := hf (path ++ [.idx i]) x hx2 hxne
-    cases hfx : f (path ++ [.idx i]) x with
-    | ok pr =>
-      obtain ⟨ret, upd⟩ := pr
-      simp only [hfx, GoodPair] at hg
-      have ih := listLoop_good f path b1 b2 hf rest (i + 1) hr
-      cases hl : listLoop f path b1 b2 (i + 1) rest with
-      | ok rest' =>
-        simp only [hl, GoodItems] at ih
-        have := storeElem_good hg.1 hg.2.1 hg.2.2.1 hg.2.2.2
-        simp [GoodItems, safeItemsB, this.1, ih, (GoVal.isNil_false_iff _).mpr this.2]
+    simp only [listLoop]
+    split
+    · simp [GoodItems]
+    · rename_i hcond
+      have hnn : x = .nil → b2 = false := by
+        intro hx
+        subst hx
+        cases b2
+        · rfl
+        · rcases hx1 with h | h
+          · subst h; simp [GoVal.isNil] at hcond
+          · simp [GoVal.isNil] at h
+      have hg := hf (path ++ [.idx i]) x hx2 hnn
+      cases hfx : f (path ++ [.idx i]) x with
+      | ok pr =>
+        obtain ⟨ret, upd⟩ := pr
+        simp only [hfx, GoodPair] at hg
+        have ih := listLoop_good f path b1 b2 hf rest (i + 1) hr
+        cases hl : listLoop f path b1 b2 (i + 1) rest with
+        | ok rest' =>
+          simp only [hl, GoodItems] at ih
+          have hsafe := storeElem_good hg.1 hg.2.1
+          have hnil : b1 = true ∨ (storeElem ret upd).isNil = false := by
+            rcases hx1 with h | h
+            · exact Or.inl h
+            · have := hg.2.2 ((GoVal.isNil_false_iff x).mp h)
+              exact Or.inr ((GoVal.isNil_false_iff _).mpr (storeElem_ne_nil this.1 this.2))
+          simp only [GoodItems, safeItemsB, Bool.and_eq_true, Bool.or_eq_true, Bool.not_eq_true']
+          exact ⟨⟨hnil, hsafe⟩, ih⟩
+        | err m p a => simp [GoodItems]
+        | panic m => simp [hl, GoodItems] at ih
+        | outOfFuel => simp [GoodItems]
       | err m p a => simp [GoodItems]
-      | panic m => simp [hl, GoodItems] at ih
+      | panic m => simp [hfx, GoodPair] at hg
       | outOfFuel => simp [GoodItems]
-    | err m p a => simp [GoodItems]
-    | panic m => simp [hfx, GoodPair] at hg
-    | outOfFuel => simp [GoodItems]
 
 theorem fieldLoop_good (s : Schema) (f : Path → GType → GoVal → Res (GoVal × GoVal)) (path : Path)
-    (hf : ∀ p t x, InputTypeOK s t → safeB x = true → x ≠ .nil → GoodPair (f p t x)) :
+    (hf : ∀ p t x, InputTypeOK s t → safeB x = true → x ≠ .nil → GoodPair x (f p t x)) :
     ∀ (fields : List FieldDef) (kvs : GoFields), (∀ fd ∈ fields, InputTypeOK s fd.type) → safeFieldsB kvs = true →
       GoodFields (fieldLoop f path .iface fields kvs)
   | [], kvs, _, hs => by simp [fieldLoop, hs, GoodFields]
@@ -113,14 +187,15 @@ theorem fieldLoop_good (s : Schema) (f : Path → GType → GoVal → Res (GoVal
         · exact ih kvs hs
       · have hn' : x.isNil = false := by simpa using hn
         simp only [hn', Bool.and_false, Bool.false_eq_true, if_false]
-        have hg := hf (path ++ [.name fd.name]) fd.type x (ht fd (by simp)) hx ((GoVal.isNil_false_iff x).mp hn')
+        have hxne : x ≠ .nil := (GoVal.isNil_false_iff x).mp hn'
+        have hg := hf (path ++ [.name fd.name]) fd.type x (ht fd (by simp)) hx hxne
         cases hfx : f (path ++ [.name fd.name]) fd.type x with
         | ok pr =>
           obtain ⟨cval, upd⟩ := pr
           simp only [hfx, GoodPair] at hg
           simp only []
           cases hty : cval.type? with
-          | none => exact absurd ((GoVal.type?_none_iff cval).mp hty) hg.2.2.1
+          | none => exact absurd ((GoVal.type?_none_iff cval).mp hty) (hg.2.2 hxne).1
           | some t =>
             simp only [assignable, decide_true, Bool.true_or, if_true]
             exact ih _ (safeFields_set kvs fd.name cval hs hg.1)
@@ -133,87 +208,190 @@ end Gql
 namespace Gql
 open Gql.Strconv
 
-theorem GoodPair_self {v : GoVal} (h1 : safeB v = true) (h2 : v ≠ .nil) : GoodPair (.ok (v, v)) := by
-  simp [GoodPair, h1, h2]
+theorem GoodPair_self {v : GoVal} (h1 : safeB v = true) : GoodPair v (.ok (v, v)) := by
+  simp [GoodPair, h1]
 
+/-- `validateVarType` does not panic on a safe value, PROVIDED a null value only meets a nullable
+    type — which every caller (the loop of `VariableValues`, the list loop, the field loop)
+    establishes before the call -/
 theorem validateVarType_good (s : Schema) (hc : InputsClosed s) :
     ∀ (fuel : Nat) (path : Path) (typ : GType) (val : GoVal),
-      InputTypeOK s typ → safeB val = true → val ≠ .nil → GoodPair (validateVarType s fuel path typ val)
+      InputTypeOK s typ → safeB val = true → (val = .nil → typ.nonNull = false) →
+      GoodPair val (validateVarType s fuel path typ val)
   | 0, _, _, _, _, _, _ => by simp [validateVarType, GoodPair]
   | fuel + 1, path, typ, val, ht, hs, hn => by
     have ih := validateVarType_good s hc fuel
-    have hnil : val.isNil = false := (GoVal.isNil_false_iff val).mpr hn
     cases typ with
     | list e nn p =>
       have hte : InputTypeOK s e := by simpa [InputTypeOK, GType.name] using ht
-      simp only [validateVarType, hnil, Bool.and_false, Bool.false_eq_true, if_false]
-      cases val with
-      | nil => exact absurd rfl hn
-      | slice t xs =>
-        simp only []
-        have hxs : safeItemsB xs = true := by simpa [safeB] using hs
-        have hl := listLoop_good (fun p x => validateVarType s fuel p e x) path (decide (t = .iface)) e.nonNull
-          (fun p x h1 h2 => ih p e x hte h1 h2) xs 0 hxs
-        cases hr : listLoop (fun p x => validateVarType s fuel p e x) path (decide (t = .iface)) e.nonNull 0 xs with
-        | ok xs' => simp only [hr, GoodItems] at hl; simp [GoodPair, safeB, hl]
-        | err m p a => simp [GoodPair]
-        | panic m => simp [hr, GoodItems] at hl
-        | outOfFuel => simp [GoodPair]
-      | _ =>
-        simp only [GoVal.type?]
-        have hg := ih (path ++ [.idx 0]) e _ hte hs hn
-        revert hg
-        cases validateVarType s fuel (path ++ [.idx 0]) e _ with
-        | ok pr =>
-          obtain ⟨ret, upd⟩ := pr
-          intro hg
-          simp only [GoodPair] at hg
-          have := storeElem_good hg.1 hg.2.1 hg.2.2.1 hg.2.2.2
-          simp [GoodPair, safeB, safeItemsB, this.1, (GoVal.isNil_false_iff _).mpr this.2, hg.2.1, hg.2.2.2]
-        | err m p a => simp [GoodPair]
-        | panic m => simp [GoodPair]
-        | outOfFuel => simp [GoodPair]
+      by_cases hnil : val.isNil = true
+      · -- the repaired R14a branch: a null where a list is expected is returned as it is
+        simp only [validateVarType, legacyNullIntoListPanics, hnil, Bool.not_false, Bool.and_self, if_true]
+        exact GoodPair_self hs
+      · have hnil' : val.isNil = false := by simpa using hnil
+        have hvn : val ≠ .nil := (GoVal.isNil_false_iff val).mp hnil'
+        simp only [validateVarType, hnil', Bool.and_false, Bool.false_eq_true, if_false]
+        cases val with
+        | nil => exact absurd rfl hvn
+        | slice t xs =>
+          simp only []
+          have hxs : safeItemsB (decide (t = .iface)) xs = true := by simpa [safeB] using hs
+          have hl := listLoop_good (fun p x => validateVarType s fuel p e x) path (decide (t = .iface)) e.nonNull
+            (fun p x h1 h2 => ih p e x hte h1 h2) xs 0 hxs
+          cases hr : listLoop (fun p x => validateVarType s fuel p e x) path (decide (t = .iface)) e.nonNull 0 xs with
+          | ok xs' =>
+            simp only [hr, GoodItems] at hl
+            have := safeItems_storeElemType (a := xs) (b := xs') hl
+            simp [GoodPair, safeB, this]
+          | err m p a => simp [GoodPair]
+          | panic m => simp [hr, GoodItems] at hl
+          | outOfFuel => simp [GoodPair]
+        | _ =>
+          simp only [GoVal.type?]
+          have hg := ih (path ++ [.idx 0]) e _ hte hs (fun h => absurd h hvn)
+          revert hg
+          cases validateVarType s fuel (path ++ [.idx 0]) e _ with
+          | ok pr =>
+            obtain ⟨ret, upd⟩ := pr
+            intro hg
+            simp only [GoodPair] at hg
+            have hne := hg.2.2 hvn
+            have h1 := storeElem_good hg.1 hg.2.1
+            have h2 := (GoVal.isNil_false_iff _).mpr (storeElem_ne_nil hne.1 hne.2)
+            simp [GoodPair, safeB, safeItemsB, h1, h2, hg.2.1, hne.2]
+          | err m p a => simp [GoodPair]
+          | panic m => simp [GoodPair]
+          | outOfFuel => simp [GoodPair]
     | named n nn p =>
       obtain ⟨d, hd, hk⟩ := ht
       simp only [GType.name] at hd
-      simp only [validateVarType, hd, hnil, Bool.and_false, Bool.false_eq_true, if_false]
-      obtain ⟨t, hty⟩ : ∃ t, val.type? = some t := by
-        cases h : val.type? with
-        | none => exact absurd ((GoVal.type?_none_iff val).mp h) hn
-        | some t => exact ⟨t, rfl⟩
-      rcases hk with hk | hk | hk
-      · -- scalar
-        simp only [hk, hty]
-        split <;> first | exact GoodPair_self hs hn | simp [GoodPair]
-      · -- enum
-        simp only [hk, hty]
-        split
-        · simp [GoodPair]
-        · split <;> first | exact GoodPair_self hs hn | simp [GoodPair]
-      · -- input object
-        simp only [hk]
-        cases val with
-        | map elem kvs =>
-          simp only []
-          have hs' : elem = .iface ∧ safeFieldsB kvs = true := by simpa [safeB] using hs
-          obtain ⟨he, hkvs⟩ := hs'
-          subst he
+      simp only [validateVarType, hd]
+      by_cases hnil : (!nn && val.isNil) = true
+      · simp only [hnil, if_true]
+        exact GoodPair_self hs
+      · simp only [hnil, Bool.false_eq_true, if_false]
+        have hvn : val ≠ .nil := by
+          intro h
+          have h1 := hn h
+          simp only [GType.nonNull] at h1
+          subst h; subst h1
+          simp [GoVal.isNil] at hnil
+        obtain ⟨t, hty⟩ : ∃ t, val.type? = some t := by
+          cases h : val.type? with
+          | none => exact absurd ((GoVal.type?_none_iff val).mp h) hvn
+          | some t => exact ⟨t, rfl⟩
+        rcases hk with hk | hk | hk
+        · -- scalar
+          simp only [hk, hty]
+          split <;> first | exact GoodPair_self hs | simp [GoodPair]
+        · -- enum
+          simp only [hk, hty]
           split
           · simp [GoodPair]
-          · have hl := fieldLoop_good s (fun p t x => validateVarType s fuel p t x) path
-              (fun p t x h0 h1 h2 => ih p t x h0 h1 h2) d.fields kvs (hc n d hd hk) hkvs
-            revert hl
-            cases fieldLoop (fun p t x => validateVarType s fuel p t x) path .iface d.fields kvs with
-            | ok kvs' => intro hl; simp only [GoodFields] at hl; simp [GoodPair, safeB, hl]
-            | err m p a => simp [GoodPair]
-            | panic m => simp [GoodFields]
-            | outOfFuel => simp [GoodPair]
-        | _ => simp [GoodPair]
+          · split <;> first | exact GoodPair_self hs | simp [GoodPair]
+        · -- input object
+          simp only [hk]
+          cases val with
+          | map elem kvs =>
+            simp only []
+            have hs' : elem = .iface ∧ safeFieldsB kvs = true := by simpa [safeB] using hs
+            obtain ⟨he, hkvs⟩ := hs'
+            subst he
+            split
+            · simp [GoodPair]
+            · have hl := fieldLoop_good s (fun p t x => validateVarType s fuel p t x) path
+                (fun p t x h0 h1 h2 => ih p t x h0 h1 (fun h => absurd h h2)) d.fields kvs (hc n d hd hk) hkvs
+              revert hl
+              cases fieldLoop (fun p t x => validateVarType s fuel p t x) path .iface d.fields kvs with
+              | ok kvs' => intro hl; simp only [GoodFields] at hl; simp [GoodPair, safeB, hl]
+              | err m p a => simp [GoodPair]
+              | panic m => simp [GoodFields]
+              | outOfFuel => simp [GoodPair]
+          | _ => simp [GoodPair]
 
 end Gql
 
 namespace Gql
 open Gql.Strconv
+
+/- ---------- converted literals (default values) are safe ---------- -/
+
+mutual
+  theorem vvw_safe (dflt : Name → Option (ConvRes GoVal)) (vars : VarMap)
+      (hv : safeFieldsB vars = true) (hd : ∀ n x, dflt n = some (.ok x) → safeB x = true) :
+      (v : Value) → ∀ x, valueValueWith dflt vars v = .ok x → safeB x = true
+    | .mk kind raw ch p, x, h => by
+      cases kind
+      case «variable» =>
+        simp only [valueValueWith] at h
+        cases h1 : vars.lookup raw with
+        | some y => simp only [h1] at h; cases h; exact safeFields_lookup vars raw _ hv h1
+        | none =>
+          simp only [h1] at h
+          cases h2 : dflt raw with
+          | none => simp only [h2] at h; cases h; rfl
+          | some r => simp only [h2] at h; subst h; exact hd raw x h2
+      case int => simp only [valueValueWith] at h; split at h <;> first | (cases h; rfl) | simp at h
+      case float => simp only [valueValueWith] at h; split at h <;> first | (cases h; rfl) | simp at h
+      case string => simp only [valueValueWith] at h; cases h; rfl
+      case block => simp only [valueValueWith] at h; cases h; rfl
+      case enum => simp only [valueValueWith] at h; cases h; rfl
+      case boolean => simp only [valueValueWith] at h; split at h <;> first | (cases h; rfl) | simp at h
+      case null => simp only [valueValueWith] at h; cases h; rfl
+      case list =>
+        simp only [valueValueWith] at h
+        cases hl : listValueWith dflt vars ch with
+        | ok xs =>
+          simp only [hl] at h; cases h
+          simpa [safeB] using lvw_safe dflt vars hv hd ch xs hl
+        | err e => simp [hl] at h
+        | diverge => simp [hl] at h
+      case object =>
+        simp only [valueValueWith] at h
+        cases hl : objectValueWith dflt vars ch .nil with
+        | ok kvs =>
+          simp only [hl] at h; cases h
+          simpa [safeB] using ovw_safe dflt vars hv hd ch .nil kvs (by simp [safeFieldsB]) hl
+        | err e => simp [hl] at h
+        | diverge => simp [hl] at h
+  theorem lvw_safe (dflt : Name → Option (ConvRes GoVal)) (vars : VarMap)
+      (hv : safeFieldsB vars = true) (hd : ∀ n x, dflt n = some (.ok x) → safeB x = true) :
+      (c : Children) → ∀ xs, listValueWith dflt vars c = .ok xs → safeItemsB true xs = true
+    | .nil, xs, h => by simp only [listValueWith] at h; cases h; simp [safeItemsB]
+    | .cons n v p rest, xs, h => by
+      simp only [listValueWith] at h
+      cases h1 : valueValueWith dflt vars v with
+      | ok x =>
+        simp only [h1] at h
+        cases h2 : listValueWith dflt vars rest with
+        | ok ys =>
+          simp only [h2] at h; cases h
+          simp [safeItemsB, vvw_safe dflt vars hv hd v x h1, lvw_safe dflt vars hv hd rest ys h2]
+        | err e => simp [h2] at h
+        | diverge => simp [h2] at h
+      | err e => simp [h1] at h
+      | diverge => simp [h1] at h
+  theorem ovw_safe (dflt : Name → Option (ConvRes GoVal)) (vars : VarMap)
+      (hv : safeFieldsB vars = true) (hd : ∀ n x, dflt n = some (.ok x) → safeB x = true) :
+      (c : Children) → ∀ acc kvs, safeFieldsB acc = true → objectValueWith dflt vars c acc = .ok kvs → safeFieldsB kvs = true
+    | .nil, acc, kvs, ha, h => by simp only [objectValueWith] at h; cases h; exact ha
+    | .cons n v p rest, acc, kvs, ha, h => by
+      simp only [objectValueWith] at h
+      cases h1 : valueValueWith dflt vars v with
+      | ok x =>
+        simp only [h1] at h
+        exact ovw_safe dflt vars hv hd rest (acc.set n x) kvs
+          (safeFields_set acc n x ha (vvw_safe dflt vars hv hd v x h1)) h
+      | err e => simp [h1] at h
+      | diverge => simp [h1] at h
+end
+
+/-- every converted constant literal (a default value) is safe: literal conversion only builds
+    `[]interface{}` / `map[string]interface{}` containers -/
+theorem valueValueConst_safe (dv : Value) (x : GoVal) (h : valueValueConst dv = .ok x) : safeB x = true := by
+  unfold valueValueConst valueValue at h
+  simp only [List.length_nil, valueValueLvl] at h
+  exact vvw_safe _ .nil (by simp [safeFieldsB]) (by intro n x h; simp [findVarDef] at h) dv x h
 
 theorem jsonNumberPre_good {typ : GType} {val rv : GoVal} (hs : safeB val = true) (hn : val ≠ .nil)
     (h : jsonNumberPre typ val = .ok rv) : safeB rv = true ∧ rv ≠ .nil := by
@@ -249,7 +427,7 @@ theorem coerceSupplied_noPanic (s : Schema) (op : OperationDef) (v : VarDef) (co
     | error m => simp [NoPanic]
     | ok rv =>
       obtain ⟨h1, h2⟩ := jsonNumberPre_good hs hn' hj
-      have hg := validateVarType_good s hc (fuelFor s op rv) (varPath v) v.type rv hty h1 h2
+      have hg := validateVarType_good s hc (fuelFor s op rv) (varPath v) v.type rv hty h1 (fun h => absurd h h2)
       revert hg
       simp only []
       cases validateVarType s (fuelFor s op rv) (varPath v) v.type rv with
@@ -257,14 +435,13 @@ theorem coerceSupplied_noPanic (s : Schema) (op : OperationDef) (v : VarDef) (co
         obtain ⟨rval, upd⟩ := pr
         intro hg
         simp only [GoodPair] at hg
-        simp [(GoVal.isNil_false_iff rval).mpr hg.2.2.1, NoPanic]
+        simp [(GoVal.isNil_false_iff rval).mpr (hg.2.2 h2).1, NoPanic]
       | err m p a => simp [NoPanic]
       | panic m => simp [GoodPair]
       | outOfFuel => simp [NoPanic]
 
 theorem suppliedValue_safe {vars : VarMap} {v : VarDef} {x : GoVal}
     (hvars : safeFieldsB vars = true)
-    (hdef : ∀ dv x, v.default = some dv → valueValueConst dv = .ok x → safeB x = true)
     (h : suppliedValue vars v = .ok (some x)) : safeB x = true := by
   unfold suppliedValue at h
   cases hl : vars.lookup v.var with
@@ -276,7 +453,7 @@ theorem suppliedValue_safe {vars : VarMap} {v : VarDef} {x : GoVal}
     | some dv =>
       simp only [hdv] at h
       cases hvv : valueValueConst dv with
-      | ok y => simp only [hvv] at h; cases h; exact hdef dv _ hdv hvv
+      | ok y => simp only [hvv] at h; cases h; exact valueValueConst_safe dv _ hvv
       | err e => simp [hvv] at h
       | diverge => simp [hvv] at h
 
@@ -287,8 +464,7 @@ theorem suppliedValue_noPanic (vars : VarMap) (v : VarDef) : NoPanic (suppliedVa
 
 theorem coerceVar_noPanic (s : Schema) (op : OperationDef) (vars : VarMap) (v : VarDef) (coerced : GoFields)
     (hc : InputsClosed s) (hop : ∃ d, s.type? v.type.name = some d)
-    (hvars : safeFieldsB vars = true)
-    (hdef : ∀ dv x, v.default = some dv → valueValueConst dv = .ok x → safeB x = true) :
+    (hvars : safeFieldsB vars = true) :
     NoPanic (coerceVar s op vars v coerced) := by
   obtain ⟨d, hd⟩ := hop
   unfold coerceVar
@@ -301,7 +477,7 @@ theorem coerceVar_noPanic (s : Schema) (op : OperationDef) (vars : VarMap) (v : 
     | ok o =>
       cases o with
       | none => simp [NoPanic]
-      | some x => exact coerceSupplied_noPanic s op v coerced x hc hty (suppliedValue_safe hvars hdef hsv)
+      | some x => exact coerceSupplied_noPanic s op v coerced x hc hty (suppliedValue_safe hvars hsv)
     | err m p a => simp [NoPanic]
     | panic m => simp [hsv, NoPanic] at hsp
     | outOfFuel => simp [NoPanic]
@@ -311,17 +487,16 @@ theorem coerceLoop_noPanic (s : Schema) (op : OperationDef) (vars : VarMap)
     (hc : InputsClosed s) (hvars : safeFieldsB vars = true) :
     ∀ (vs : List VarDef) (coerced : GoFields),
       (∀ v ∈ vs, ∃ d, s.type? v.type.name = some d) →
-      (∀ v ∈ vs, ∀ dv x, v.default = some dv → valueValueConst dv = .ok x → safeB x = true) →
       NoPanic (coerceLoop s op vars vs coerced)
-  | [], coerced, _, _ => by simp [coerceLoop, NoPanic]
-  | v :: rest, coerced, hop, hdef => by
-    have h1 := coerceVar_noPanic s op vars v coerced hc (hop v (by simp)) hvars (hdef v (by simp))
+  | [], coerced, _ => by simp [coerceLoop, NoPanic]
+  | v :: rest, coerced, hop => by
+    have h1 := coerceVar_noPanic s op vars v coerced hc (hop v (by simp)) hvars
     simp only [coerceLoop]
     revert h1
     cases coerceVar s op vars v coerced with
     | ok c =>
       intro _
-      exact coerceLoop_noPanic s op vars hc hvars rest c (fun v' h => hop v' (by simp [h])) (fun v' h => hdef v' (by simp [h]))
+      exact coerceLoop_noPanic s op vars hc hvars rest c (fun v' h => hop v' (by simp [h]))
     | err m p a => simp [NoPanic]
     | panic m => simp [NoPanic]
     | outOfFuel => simp [NoPanic]
